@@ -1923,14 +1923,17 @@ class _Project:
             )
             backend.on_diagnostics(
                 snooty_config_fileid,
-                fetch_diagnostics,
+                filter_diagnostics(self.config, fetch_diagnostics),
             )
 
         if config_diagnostics:
             self.initialization_diagnostics[snooty_config_fileid].extend(
                 config_diagnostics
             )
-            backend.on_diagnostics(snooty_config_fileid, config_diagnostics)
+            backend.on_diagnostics(
+                snooty_config_fileid,
+                filter_diagnostics(self.config, config_diagnostics),
+            )
 
         self.parser = rstparser.Parser(self.config, JSONVisitor)
 
@@ -1960,8 +1963,8 @@ class _Project:
                     substitution_diagnostics
                 )
                 backend.on_diagnostics(
-                    self.config.get_fileid(self.config.config_path),
-                    substitution_diagnostics,
+                    snooty_config_fileid,
+                    filter_diagnostics(self.config, substitution_diagnostics),
                 )
 
         self.config.substitution_nodes = substitution_nodes
@@ -1987,8 +1990,8 @@ class _Project:
                         banner_diagnostics
                     )
                     backend.on_diagnostics(
-                        self.config.get_fileid(self.config.config_path),
-                        banner_diagnostics,
+                        snooty_config_fileid,
+                        filter_diagnostics(self.config, banner_diagnostics),
                     )
 
         username = getpass.getuser()
